@@ -181,7 +181,7 @@ func near(r *rand.Rand, v uint32) uint32 { return v + uint32(r.Intn(3)) - 1 }
 func main() {
 	mon.Main(mon.Options{
 		Property: "C07", Level: "exploration",
-		Rule: "pairs: every ordered pair of (height,maxHeightGenerated,maxHeightPrevoted) in [0,R]^3 x same/different generator (R=5 quick, 8 thorough; exhaustive) plus random uint32 pairs with boundary values and field ties, key = region of the LIP-0014 relation; " +
+		Rule: "pairs: every ordered pair of (height,maxHeightGenerated,maxHeightPrevoted) in [0,R]^3 x same/different generator (R=6 quick, 11 thorough; exhaustive) plus random uint32 pairs with boundary values and field ties, key = region of the LIP-0014 relation; " +
 			"chain: BFT vote state built through liskbft.Module for simulated chains with honest and faulty generators, every generator probed at every step, key = (position of the generator's last header relative to the 3*batchSize window, region, flagged); " +
 			"forkchoice/process: tip x incoming x receive-time enumeration, key = (LIP-0014 class, predicate vector); priority: (maxHeightPrevoted,height) pairs incl. ties, key = order relation",
 		Assumptions: []string{
@@ -208,7 +208,7 @@ func main() {
 // ---------------------------------------------------------------------------------------
 
 func pairsExhaustive(c *mon.Ctx) {
-	R := uint32(c.N(5, 8))
+	R := uint32(c.N(6, 11))
 	n := int((R + 1) * (R + 1) * (R + 1))
 	dec := func(i int) (uint32, uint32, uint32) {
 		m := int(R + 1)
@@ -221,8 +221,7 @@ func pairsExhaustive(c *mon.Ctx) {
 			h2, g2, p2 := dec(j)
 			for _, gen := range [][]byte{genA, genB} {
 				b := &ph{h2, g2, p2, gen}
-				// the API path hashes two headers: do it on a deterministic third of the pairs in quick
-				checkPair(k, a, b, !c.Quick() || (k.Index+j)%3 == 0)
+				checkPair(k, a, b, true)
 			}
 		}
 		if k.Index == 0 {
@@ -232,7 +231,7 @@ func pairsExhaustive(c *mon.Ctx) {
 }
 
 func pairsRandom(c *mon.Ctx) {
-	c.Cases("pairs-random", c.N(320, 6400), func(k *mon.Case) {
+	c.Cases("pairs-random", c.N(8000, 80000), func(k *mon.Case) {
 		r := k.R
 		for i := 0; i < 1000; i++ {
 			a := &ph{randU32(r), randU32(r), randU32(r), genA}
@@ -280,7 +279,7 @@ type simGen struct {
 }
 
 func chainWindow(c *mon.Ctx) {
-	c.Cases("chain-window", c.N(400, 8000), func(k *mon.Case) {
+	c.Cases("chain-window", c.N(24000, 240000), func(k *mon.Case) {
 		r := k.R
 		batch := 1 + r.Intn(5)
 		window := 3 * batch
@@ -668,7 +667,7 @@ func b2i(b bool) int {
 }
 
 func forkChoiceEnum(c *mon.Ctx) {
-	c.Cases("forkchoice-enum", c.N(32, 640), func(k *mon.Case) {
+	c.Cases("forkchoice-enum", c.N(1600, 16000), func(k *mon.Case) {
 		sc := newSlotClock()
 		slot := validator.NewBlockSlot(sc.genesis, blockTime)
 		for _, tip := range tipVariants(k.R, sc) {
@@ -709,7 +708,7 @@ func forkChoiceEnum(c *mon.Ctx) {
 // HeaderHasPriority
 
 func priority(c *mon.Ctx) {
-	c.Cases("priority", c.N(160, 3200), func(k *mon.Case) {
+	c.Cases("priority", c.N(8000, 80000), func(k *mon.Case) {
 		r := k.R
 		for i := 0; i < 500; i++ {
 			k.Eval(1)
@@ -763,7 +762,7 @@ func priority(c *mon.Ctx) {
 // Executer.process branch order and Executer.Synced on a real Executer.
 
 func executerOrder(c *mon.Ctx) {
-	c.Cases("executer", c.N(32, 480), func(k *mon.Case) {
+	c.Cases("executer", c.N(1600, 16000), func(k *mon.Case) {
 		sc := newSlotClock()
 		// (Chain.PrepareCache loads heights below a non-zero genesis height, so the node starts at 0)
 		g0 := uint32(0)
